@@ -588,6 +588,10 @@ def run_check(prop: str, tier: str) -> int:
         complement["known_signatures_active"] = comp_active
         if complement.get("error"):
             errors.append("bounded complement failed to run: " + str(complement["error"])[:300])
+        he = complement.get("harness_errors") or []
+        if len(he) * 5 > max(1, int(complement.get("evaluations") or 0)):
+            # the harness itself is broken (a silent `except` would otherwise turn the complement off)
+            errors.append(f"bounded complement: {len(he)} of {complement.get('evaluations')} cases hit a harness error: {he[0][:200]}")
         for f in complement.get("failures", []):
             if f["signature"] in comp_active:
                 continue
